@@ -373,19 +373,14 @@ class FmtStr:
         for bfs, bfs_start, bfs_end in zip(
             self.chunks, self.divides[:-1], self.divides[1:]
         ):
-            if end == bfs_start == 0:
-                new_components.extend(new_fs.chunks)
-                new_components.append(bfs)
-                inserted = True
-
-            elif bfs_start <= start < bfs_end:
+            if bfs_start <= start < bfs_end:
                 divide = start - bfs_start
                 head = Chunk(bfs.s[:divide], atts=bfs.atts)
                 tail = Chunk(bfs.s[end - bfs_start :], atts=bfs.atts)
                 new_components.extend([head] + new_fs.chunks)
                 inserted = True
 
-                if bfs_start < end < bfs_end:
+                if end < bfs_end:
                     tail = Chunk(bfs.s[end - bfs_start :], atts=bfs.atts)
                     new_components.append(tail)
 
